@@ -11,6 +11,7 @@ from typing import (
     Callable,
     Dict,
     Generic,
+    List,
     Mapping,
     Optional,
     Type,
@@ -186,17 +187,32 @@ class Runtime:
 
     def __enter__(self):
         with lock:
-            self.previous = _RUNTIMES.get(threading.current_thread())
-            _RUNTIMES[threading.current_thread()] = self
+            thread = threading.current_thread()
+            self.previous = _RUNTIMES.get(thread)
+            # The runtime to restore is remembered per thread and per block, not on
+            # the runtime object: the same object may be entered again while it is
+            # active, and by several threads at once.
+            _ENTERED.setdefault(thread, []).append(self.previous)
+            _RUNTIMES[thread] = self
             return self
 
     def __exit__(self, exc_type, exc_value, traceback):
         with lock:
-            _RUNTIMES[threading.current_thread()] = self.previous
+            thread = threading.current_thread()
+            entered = _ENTERED[thread]
+            previous = entered.pop()
+            if not entered:
+                del _ENTERED[thread]
+            if previous is None:
+                # The thread had no runtime before the block was entered
+                _RUNTIMES.pop(thread, None)
+            else:
+                _RUNTIMES[thread] = previous
             self.previous = None
 
 
 _RUNTIMES: Dict[threading.Thread, Runtime] = {}
+_ENTERED: Dict[threading.Thread, List[Optional[Runtime]]] = {}
 
 
 def current_runtime() -> Runtime:
